@@ -80,7 +80,7 @@ type item struct {
 	cls    string
 }
 
-var placements = []string{"consecutive", "twice", "between"}
+var placements = []string{"consecutive", "twice", "between", "after-own"}
 
 // gridItem builds the case for grid tx s in the given placement; id selects the senders.
 func gridItem(id int, s txSpec, placement string) *item {
@@ -94,6 +94,11 @@ func gridItem(id int, s txSpec, placement string) *item {
 		it.blocks, it.evals = [][][]byte{{t}, {t}}, 2
 	case "twice":
 		it.blocks = [][][]byte{{t, t}}
+	case "after-own":
+		// the grid tx right after a valid tx of the SAME sender in the same block: whatever happens
+		// to the second one, the effects of the first one stay
+		own := gridSender(id)
+		it.blocks = [][][]byte{{evmkit.Call(own, 0, storeAddr, evmkit.StorePut(uint64(id)+7)), t}}
 	case "between":
 		nb := neighbour(id)
 		it.blocks = [][][]byte{{evmkit.Call(nb, 0, storeAddr, evmkit.StorePut(uint64(id)+1)), t, evmkit.KVPut(nb, 1, []byte("kB"), []byte(fmt.Sprint("vB", id)))}}
@@ -226,11 +231,29 @@ func (d *driver) runChainN(items []*item, attempt int) {
 			} else {
 				parts = [][][]byte{txs[:len(txs)/2], txs[len(txs)/2:]}
 			}
+			d.mu.Lock()
+			before := len(d.hits)
+			d.mu.Unlock()
 			for _, p := range parts {
 				if len(p) > 0 {
 					d.runChain([]*item{rawItem(int(atomic.AddInt64(&d.rawID, 1)), it.k.Source, p)})
 				}
 			}
+			d.mu.Lock()
+			if len(d.hits) == before && len(parts) == 2 && len(parts[0])+len(parts[1]) <= 2 {
+				// neither part panics on its own: the panic needs this very combination of
+				// transactions in one block - the smallest such block is the counterexample
+				for _, f := range fs {
+					f.sig["shape"] = "needs-several-txs-in-one-block"
+					d.hits = append(d.hits, hit{order: it.id, alone: true, sig: f.sig, item: it, where: "block of the case", detail: f.detail})
+				}
+			} else if len(d.hits) == before {
+				for _, f := range fs {
+					f.sig["shape"] = "needs-several-txs-in-one-block"
+					d.hits = append(d.hits, hit{order: it.id, alone: true, sig: f.sig, item: it, where: "block of the case (" + fmt.Sprint(len(txs)) + " raw txs; no half of it panics alone)", detail: f.detail})
+				}
+			}
+			d.mu.Unlock()
 			return
 		}
 	}
